@@ -315,6 +315,24 @@ def iopImgs (tol : Rat) (n : Nat) (one two : List GQ) : List Op :=
                                    jwTwoBody tol pq.1 pq.2 pq.1 pq.2 (iopC2 n two pq.1 pq.2)])
   ++ (combs2 (pairs n)).map (fun x => jwTwoBody tol x.1.1 x.1.2 x.2.1 x.2.2 (iopC4 n two x.1.1 x.1.2 x.2.1 x.2.2))
 
+/-- the operands `_jordan_wigner_diagonal_coulomb_hamiltonian` adds to `QubitOperator((), constant)` -/
+def dchImgs (n : Nat) (one two : List GQ) : List Op :=
+  (List.range n).flatMap (fun p =>
+    [mk .qubit [(p, 3)] (rl (-(mkRat 1 2)) * (get1 n one p p + get1 n two p p)),
+     mk .qubit [] (half * (get1 n one p p + get1 n two p p))])
+  ++ (pairs n).flatMap (fun pq =>
+    [mk .qubit ([(pq.1, 1)] ++ zs (pq.1 + 1) pq.2 ++ [(pq.2, 1)]) (rl (mkRat 1 2 * (get1 n one pq.1 pq.2).re)),
+     mk .qubit ([(pq.1, 2)] ++ zs (pq.1 + 1) pq.2 ++ [(pq.2, 2)]) (rl (mkRat 1 2 * (get1 n one pq.1 pq.2).re)),
+     mk .qubit ([(pq.1, 2)] ++ zs (pq.1 + 1) pq.2 ++ [(pq.2, 1)]) (rl (mkRat 1 2 * (get1 n one pq.1 pq.2).im)),
+     mk .qubit ([(pq.1, 1)] ++ zs (pq.1 + 1) pq.2 ++ [(pq.2, 2)]) (rl (-(mkRat 1 2) * (get1 n one pq.1 pq.2).im)),
+     mk .qubit [(pq.1, 3), (pq.2, 3)] (half * get1 n two pq.1 pq.2),
+     mk .qubit [(pq.1, 3)] (rl (-(mkRat 1 2)) * get1 n two pq.1 pq.2),
+     mk .qubit [(pq.2, 3)] (rl (-(mkRat 1 2)) * get1 n two pq.1 pq.2),
+     mk .qubit [] (half * get1 n two pq.1 pq.2)])
+
+def jwDCHOk (tol : Rat) (n : Nat) (const : GQ) (one two : List GQ) : Bool :=
+  sumOkFrom tol (mk .qubit [] const) (dchImgs n one two)
+
 /-- exact regime of `jordan_wigner(InteractionOperator)`: all inner helper calls and all outer `+=` exact -/
 def jwInteractionOpOk (tol : Rat) (n : Nat) (const : GQ) (one two : List GQ) : Bool :=
   (List.range n).all (fun p => jwOneBodyOk tol p p (get1 n one p p))
